@@ -97,7 +97,21 @@ def ks(t, x, y, o, v=4.0):
     return {"cls": "KSState", "attrs": {"time_step": t, "position": [x, y], "orientation": o, "velocity": v, "steering_angle": 0.02}}
 
 
+def _nz(st, k=1.0):
+    st["attrs"].update(acceleration=0.25 * k, yaw_rate=0.125 * k, slip_angle=-0.0625 * k)
+    return st
+
+
 def base():
+    sp = _base()
+    for o in sp["obstacles"]:
+        if "initial_state" in o:
+            _nz(o["initial_state"], 1.0 + 0.5 * (o["id"] - 30))
+    _nz(sp["pps"][0]["initial_state"], 3.0)
+    return sp
+
+
+def _base():
     sp = {"dt": 0.1, "sid": {"country": "DEU", "map": "Test", "map_id": 1, "conf": 1, "beh": "T", "pred": 1}, "author": "A. Author", "affiliation": "TUM", "source": "handmade",
           "tags": ["URBAN", "INTERSECTION"],
           "location": {"geo_name_id": 2867714, "lat": 48.262333, "lon": 11.668775, "geo": {"ref": "+proj=utm +zone=32", "x": 1.5, "y": -2.25, "rot": 0.125, "scale": 1.0},
@@ -135,9 +149,9 @@ def base():
 def lanelet_goal_shape(sp, ids):
     """the ShapeGroup a reader builds for a goal given by lanelets: one polygon per lanelet (right + reversed left)"""
     out = []
-    for l in sp["lanelets"]:
-        if l["id"] in ids:
-            out.append(["poly", [list(p) for p in l["right"]] + [list(p) for p in l["left"]][::-1]])
+    for i in ids:
+        l = next(x for x in sp["lanelets"] if x["id"] == i)
+        out.append(["poly", [list(p) for p in l["right"]] + [list(p) for p in l["left"]][::-1]])
     return ["group", out]
 
 
@@ -191,8 +205,20 @@ def menu(fmt):
         add("env.weather", f"weather={m}", lambda s, m=m: s["location"]["env"].__setitem__("weather", m))
     for m in members(Underground, fmt, "underground", ("location_pb2", "UndergroundEnum.Underground")):
         add("env.underground", f"underground={m}", lambda s, m=m: s["location"]["env"].__setitem__("underground", m))
+    from commonroad.scenario.traffic_sign import TrafficSignIDCountries
+    code_of = {}
+    for code, cls in TrafficSignIDCountries.items():
+        code_of.setdefault(cls.__name__, code)
+    code_of["TrafficSignIDGermany"] = "DEU"
     for cname, m in sign_members(fmt):
-        add("S10.el0", f"sign.element={cname}.{m}", lambda s, cname=cname, m=m: find(s, "signs", 10).__setitem__("elements", [(cname, m, ["30"] if "SPEED" in m else [])]))
+        def setsign(s, cname=cname, m=m):
+            find(s, "signs", 10).__setitem__("elements", [(cname, m, ["30"] if "SPEED" in m else [])])
+            if fmt == "xml":
+                # the XML format stores only the sign id string; the reader resolves it with the enum of the scenario's country
+                if cname not in code_of:
+                    return False
+                s["sid"]["country"] = code_of[cname]
+        add("S10.el0", f"sign.element={cname}.{m}", setsign)
 
     # ---- B: optional elements
     add("L1.adj_left", "L1.adj_left=None", lambda s: (find(s, "lanelets", 1).__setitem__("adj_left", None), find(s, "lanelets", 3).__setitem__("adj_right", None)))
@@ -220,7 +246,7 @@ def menu(fmt):
     add("loc.geo", "location.geo=None", lambda s: s["location"].__setitem__("geo", None))
     add("loc.env", "location.env=None", lambda s: s["location"].__setitem__("env", None))
     add("sid", "scenario_id=map-only", lambda s: s.__setitem__("sid", {"country": "ZAM", "map": "Tjunction", "map_id": 3}))
-    add("sid", "scenario_id=coop-multi", lambda s: s.__setitem__("sid", {"coop": True, "country": "USA", "map": "US101", "map_id": 33, "conf": 2, "beh": "S", "pred": [1, 3]}))
+    add("sid", "scenario_id=coop-multi", lambda s: s.__setitem__("sid", {"coop": True, "country": "DEU", "map": "A9", "map_id": 33, "conf": 2, "beh": "S", "pred": [1, 3]}))
     for f in ("horn", "indicator_left", "indicator_right", "braking_lights", "hazard_warning_lights", "flashing_blue_lights"):
         add(f"O31.sig0.{f}", f"initial_signal_state.{f}=flip", lambda s, f=f: find(s, "obstacles", 31)["initial_signal_state"].__setitem__(f, not find(s, "obstacles", 31)["initial_signal_state"][f]))
         add(f"O31.sig1.{f}", f"signal_series[0].{f}=flip", lambda s, f=f: find(s, "obstacles", 31)["signal_series"][0].__setitem__(f, not find(s, "obstacles", 31)["signal_series"][0][f]))
@@ -299,6 +325,15 @@ def menu(fmt):
     for a in ("orientation", "velocity", "steering_angle"):
         iv = ["aiv", -0.125, 0.375] if a == "orientation" else ["iv", 3.5, 4.75]
         add(f"O31.traj0.{a}", f"trajectory[0].{a}=interval", lambda s, a=a, iv=iv: find(s, "obstacles", 31)["prediction"]["states"][0]["attrs"].__setitem__(a, list(iv)))
+    for a, v in (("velocity", 3.5), ("steering_angle", 0.02)):
+        add(f"O31.traj0.{a}", f"trajectory[0].{a}=degenerate-interval", lambda s, a=a, v=v: find(s, "obstacles", 31)["prediction"]["states"][0]["attrs"].__setitem__(a, ["iv", v, v]))
+        add(f"O31.traj0.{a}", f"trajectory[0].{a}=narrow-interval", lambda s, a=a, v=v: find(s, "obstacles", 31)["prediction"]["states"][0]["attrs"].__setitem__(a, ["iv", v + 0.01, v + 0.05]))
+    add("O31.traj0.orientation", "trajectory[0].orientation=degenerate-interval", lambda s: find(s, "obstacles", 31)["prediction"]["states"][0]["attrs"].__setitem__("orientation", ["aiv", 0.0625, 0.0625]))
+    add("PP.goal0.vnarrow", "goal[0].velocity=narrow-interval", lambda s: s["pps"][0]["goal"]["states"][0]["attrs"].__setitem__("velocity", ["iv", 10.0002, 10.0007]))
+    add("PP.goal0.vnarrow", "goal[0].orientation=degenerate-interval", lambda s: s["pps"][0]["goal"]["states"][0]["attrs"].__setitem__("orientation", ["aiv", 0.25, 0.25]))
+    add("dynamic.init.velocity", "dynamic.initial_state.velocity=degenerate-interval", lambda s: find(s, "obstacles", 31)["initial_state"]["attrs"].__setitem__("velocity", ["iv", 8.5, 8.5]))
+    add("L2.refs", "L2.sign+light-only-in-stop-line(refs-on-L1)", lambda s: (find(s, "lanelets", 2).update(signs=[], lights=[]), find(s, "lanelets", 1).update(signs=[10], lights=[11])))
+    add("L2.refs", "L2.light-only-in-stop-line(ref-on-L3)", lambda s: (find(s, "lanelets", 2).update(lights=[]), find(s, "lanelets", 3).update(lights=[11])))
     add("O31.traj.len", "trajectory.len=1", lambda s: find(s, "obstacles", 31)["prediction"].__setitem__("states", find(s, "obstacles", 31)["prediction"]["states"][:1]))
     add("O31.traj.len", "trajectory.starts-at-3", lambda s: [st["attrs"].__setitem__("time_step", st["attrs"]["time_step"] + 2) for st in find(s, "obstacles", 31)["prediction"]["states"]] and
         find(s, "obstacles", 31)["prediction"].__setitem__("t0", 3))
@@ -361,6 +396,8 @@ def conflicts(a, b):
     if {a, b} == {"O32.occ0.shape", "O32.occ1.cx"} or {a, b} == {"O32.occ1.t", "O32.occ1.cx"}:
         return False
     if a.startswith("T11.c") and b == "T11.cycle" or b.startswith("T11.c") and a == "T11.cycle":
+        return True
+    if {a, b} == {"S10.el0", "sid"} or ("PP.goal.lanelets" in (a, b) and ("L1.left0.x" in (a, b))):
         return True
     if a.startswith("S10.") and b.startswith("S10.") and ("el0" in a + b or "values" in a + b or "elements" in a + b) and not ("pos" in a + b or "virtual" in a + b):
         return True
